@@ -171,6 +171,11 @@ def cvc5_check(smt2):
     return v, time.time() - t
 
 
+def _has_quantifier(f):
+    if z3.is_quantifier(f): return True
+    return any(_has_quantifier(c) for c in f.children())
+
+
 def verify_one(key):
     """Generate and discharge the obligations of one contract. Returns a JSON-able record."""
     ent = REGISTRY[key]
@@ -210,18 +215,32 @@ def verify_one(key):
         axioms = ex.axioms + mem_axioms()
         rec['trusted'] = sorted(set(cx.trusted) | {f'callee contract: {n}' for n in ex.trusted})
         # vacuity: precondition satisfiable, and which exits are reachable
+        # vacuity / reachability checks are satisfiability queries: quantified facts are dropped for them (a model search under quantifiers can
+        # diverge); 'unsat' without them is still a proof that the path is dead, 'sat' only means 'not shown dead'
+        ground = lambda fs: [f for f in fs if not _has_quantifier(f)]
         s = z3.Solver(); s.set('timeout', Z3_TIMEOUT_MS)
-        for a in axioms: s.add(a)
-        for p in cx.d['requires']: s.add(p)
+        for a in ground(axioms): s.add(a)
+        for p in ground(cx.d['requires']): s.add(p)
         r = s.check()
+        if r == z3.unsat:
+            # confirm with a second solver instance and another seed: a precondition is only called contradictory when both agree
+            s = z3.Solver(); s.set('timeout', Z3_TIMEOUT_MS); s.set('random_seed', 7)
+            for a in ground(axioms): s.add(a)
+            for p in ground(cx.d['requires']): s.add(p)
+            r = s.check()
         rec['requires_sat'] = str(r)
+        if r == z3.unsat and os.environ.get('PYVC_DEBUG_CORE'):
+            open('/tmp/vacuity.smt2', 'w').write(s.to_smt2())
+            s_ = z3.Solver(); fs = ground(axioms) + ground(cx.d['requires'])
+            for i_, f_ in enumerate(fs): s_.assert_and_track(f_, f'c{i_}')
+            if s_.check() == z3.unsat: rec['unsat_core'] = [str(fs[int(str(c_)[1:])])[:300] for c_ in s_.unsat_core()]
         if r == z3.unsat:
             rec['status'] = 'vacuous'; rec['reason'] = 'precondition (with axioms) is unsatisfiable'
         for kind, lst in (('return', ex.returns), ('raise', ex.raises)):
             for i, (rs, rv, line) in enumerate(lst):
                 s = z3.Solver(); s.set('timeout', 5000)
-                for a in axioms: s.add(a)
-                for p in rs.pc: s.add(p)
+                for a in ground(axioms): s.add(a)
+                for p in ground(rs.pc): s.add(p)
                 r = s.check()
                 if r == z3.unsat: rec['dead_paths'].append(f'{kind}{i}@{line}')
                 else: rec['reachable_paths'] += 1
